@@ -10,11 +10,18 @@ ENGINES = [
 PENDING = 'not yet claimed: machinery for this property is still being built (see DESIGN.md §10 build order)'
 NOT_APPLICABLE = {
     'C01': PENDING, 'C02': PENDING, 'C03': PENDING, 'C04': PENDING, 'C05': PENDING, 'C06': PENDING,
-    'C08': PENDING, 'C09': PENDING, 'C10': PENDING, 'C11': PENDING, 'C12': PENDING, 'C13': PENDING, 'C14': PENDING,
+    'C08': PENDING, 'C09': PENDING, 'C10': PENDING, 'C11': PENDING, 'C12': PENDING, 'C13': PENDING,
     'C16': PENDING, 'C18': PENDING, 'C19': PENDING,
     'C17': 'BLAKE3/SHA-256/Keccak-256 masm programs (800-3500 straight-line u32 ops) vs reference functions is a full bit-vector equivalence of compression functions; no function contract within reach of Verus/Z3 or Kani decides it (DESIGN §7 C17)',
 }
 META = {
+    'C14': {
+        'engine': 'E1 verus-extract',
+        'technique': 'Verus frame postconditions on the real execute_decorator, ensure_trace_capacity (System / Stack / Process) and op_clk; bounded stand-in (real processor) for the relational parts: re-run determinism, capacity-hint and debug-assembly independence, step iterator forward/backward against the trace',
+        'design_ref': '§7 C14, §11',
+        'level_text': 'Deductive proof for all programs and states: executing any decorator leaves stack, system registers (cycle count included), decoder operation stream and chiplets unchanged; trace-capacity growth (driven by the expected-cycles hint) preserves the current state and every earlier row; clk pushes the current clock. Bounded (6 programs): identical traces on re-run, under hints 64..4096 and under debug-mode assembly; the step iterator agrees with the trace at every clock in both directions - except for the open known finding F19.',
+        'level_note': 'The relational statements (two runs give the same trace) are not function contracts; they are checked bounded only and labelled so. Known finding F19 (open): VmStateIterator reports the overflow part of the stack one cycle early.',
+    },
     'C07': {
         'engine': 'E1 verus-extract',
         'technique': 'Verus contracts on the real memory operations, Chiplets memory front-end, System/Stack context switches and the call/syscall/dyn block executors against hub rules (rule_call / rule_syscall / rule_dyn) with memory and context in the state; memory-frame invariant (mem_frame) carried by every executor',
